@@ -839,8 +839,12 @@ func csrfMain(s *simrt.Sim, info *harness.RunInfo) {
 
 		if ext != nil && ext.track {
 			for _, tkn := range seen {
+				tk := tokens[tkn]
+				if !now.Before(tk.untilMin) || tk.deleted || (singleUse && tk.consumed) {
+					continue // only tokens that are still live matter
+				}
 				if g, ok := ext.given[tkn]; ok && g != tkn {
-					s.Fail("C16.storage-key-aliases-request-buffer", "after op%d (b%d %s %s): the key string the middleware handed to Storage.Set for token %s no longer reads as that token (%d bytes, changed by a later request): it points into a reusable request buffer, so a storage that keeps its key in process (internal/storage/memory does) loses or confuses the token",
+					s.Fail("C16.storage-key-aliases-request-buffer", "after op%d (b%d %s %s): the key string the middleware handed to Storage.Set for the live token %s no longer reads as that token (%d bytes, changed by a later request): it points into a reusable request buffer, so a storage that keeps its key in process (internal/storage/memory does) loses or confuses the token",
 						op.id, bi, op.method, shown, alias(tkn), len(g))
 					break
 				}
